@@ -1382,7 +1382,7 @@ fn handle_rl_dwarf(a: &[&str]) -> Option<String> {
     }
     let mut out = format!("normal i{} e{} c{}", cnt.items, cnt.errors, envs.len());
     let mut oracle = oracle;
-    const RECORDED: &[&str] = &["eh-pointer-read-differs", "eh-pointer-not-relocatable", "cie-pointer-read-differs", "cie-pointer-not-relocatable", "fde-length-read-as-address"];
+    const RECORDED: &[&str] = &["eh-pointer-read-differs", "eh-pointer-not-relocatable", "cie-pointer-read-differs", "cie-pointer-not-relocatable"];
     // a class that is not a recorded finding always wins; among recorded ones the case's seed
     // chooses, so that every recorded finding keeps being reported by some cases
     let class_of = |x: &String| x.split(' ').next().unwrap_or("").to_string();
